@@ -394,7 +394,8 @@ package rockredis
 //@   trusted reads the collection meta from the store
 //@   ensures result1 == nil ==> result0.OldHeader != nil
 //@ func (info collVerKeyInfo) IsNotExistOrExpired() bool
-//@   trusted pure predicate on the meta read
+//@   requires info.OldHeader != nil
+//@   ensures result <==> (info.Expired || info.OldHeader.UserData == nil)
 //@ func (db *RockDB) buildSpecificDataScanIterator(storeDataType byte, table []byte, key []byte, cursor []byte, count int, reverse bool) (*engine.RangeLimitedIterator, error)
 //@   trusted opens an engine iterator over buildSpecificDataScanKeyRange(...) with RangeOpen and the given count (engine contract, C20)
 //@   ensures result1 == nil ==> rliOK(result0) && result0.step == 0
@@ -437,4 +438,52 @@ package rockredis
 //@   ensures result1 == nil && result0 == 0 ==> ghost(wbdels, wb) == old(ghost(wbdels, wb)) + 1 && ghost(wbputs, wb) == old(ghost(wbputs, wb))
 //@   ensures result1 == nil && result0 > 0 ==> ghost(wbputs, wb) == old(ghost(wbputs, wb)) + 1 && ghost(wbdels, wb) == old(ghost(wbdels, wb))
 //@   ensures result1 != nil ==> ghost(wbputs, wb) == old(ghost(wbputs, wb)) && ghost(wbdels, wb) == old(ghost(wbdels, wb))
-//@   modifies ghost(wbputs, wb), ghost(wbdels, wb)
+//@   ghostset ghost(lmhead, db) := headSeq
+//@   ghostset ghost(lmtail, db) := tailSeq
+//@   ghostset ghost(lmsets, db) := old(ghost(lmsets, db)) + 1
+//@   modifies ghost(wbputs, wb), ghost(wbdels, wb), ghost(lmhead, db), ghost(lmtail, db), ghost(lmsets, db)
+
+// the stored list meta as read at the start of a command: ghost(curhead/curlen, db); an existing list has
+// 1 <= len and head/tail inside the sequence window (store invariant maintained by lpush/lSetMeta, assumed here)
+//@ func (db *RockDB) lHeaderAndMeta(ts int64, key []byte, useLock bool) (collVerKeyInfo, int64, int64, int64, int64, error)
+//@   trusted reads the meta key through the engine
+//@   ensures result5 == nil ==> result0.OldHeader != nil
+//@   ensures result5 == nil && !(result0.Expired || result0.OldHeader.UserData == nil) ==> ghost(curexists, db) == 1 && result1 == ghost(curhead, db) && result3 == ghost(curlen, db) && result2 == result1 + result3 - 1 && result3 >= 1 && result1 >= listMinSeq && result2 <= listMaxSeq && smallTK(result0.Table, result0.VerKey)
+//@   ensures result5 != nil || result0.Expired || result0.OldHeader.UserData == nil ==> ghost(curexists, db) == 0
+//@ func (db *RockDB) lDelete(ts int64, key []byte, wb engine.WriteBatch) int64
+//@   trusted deletes every element and the meta key of the list
+//@   ensures ghost(ldeletes, db) == old(ghost(ldeletes, db)) + 1
+//@   modifies ghost(ldeletes, db), ghost(wbputs, wb), ghost(wbdels, wb)
+//@ interface (github.com/youzan/ZanRedisDB/engine.KVEngine).Write func(e engine.KVEngine, wb engine.WriteBatch) error
+//@   ensures ghost(commits, e) == old(ghost(commits, e)) + 1
+//@   modifies ghost(commits, e)
+//@ func (db *RockDB) IncrTableKeyCount(table []byte, delta int64, wb engine.WriteBatch)
+//@   trusted table key counter (merge operand)
+//@   ensures ghost(tblcnt, db) == old(ghost(tblcnt, db)) + delta
+//@   modifies ghost(tblcnt, db)
+//@ interface (github.com/youzan/ZanRedisDB/rockredis.expiration).delExpire func(e expiration, dataType byte, key []byte, keyInfo []byte, needLock bool, wb engine.WriteBatch) (int64, error)
+//@   modifies ghost(expdels, e)
+//@ func checkKeySize(key []byte) error
+//@   ensures result == nil <==> (1 <= len(key) && len(key) <= MaxKeySize)
+//@ func checkValueSize(value []byte) error
+//@   ensures result == nil <==> len(value) <= MaxValueSize
+//@   ensures result != nil ==> result == errValueSize
+//@ func checkCollKFSize(key []byte, field []byte) error
+//@   ensures result == nil <==> (1 <= len(key) && len(key) <= MaxKeySize && len(field) <= MaxSubKeyLen)
+
+// LTRIM key start stop (Redis): negative indexes count from the tail; start is clamped to 0, stop to len-1;
+// an empty or inverted range removes the key, otherwise exactly the elements [s, e] remain
+//@ spec ltS(llen int64, start int64) int64 = max(ite(start < 0, llen + start, start), 0)
+//@ spec ltE(llen int64, stop int64) int64 = min(ite(stop < 0, llen + stop, stop), llen - 1)
+//@ spec ltEmpty(llen int64, start int64, stop int64) bool = ltS(llen, start) >= llen || ltS(llen, start) > ite(stop < 0, llen + stop, stop)
+//@ func (db *RockDB) ltrim2(ts int64, key []byte, startP, stopP int64) error
+//@   requires db != nil && db.wb != nil && startP > -4611686018427387904 && startP < 4611686018427387904 && stopP > -4611686018427387904 && stopP < 4611686018427387904
+//@   ensures result == nil && ghost(curexists, db) == 1 && ltEmpty(ghost(curlen, db), startP, stopP) ==> ghost(ldeletes, db) == old(ghost(ldeletes, db)) + 1 && ghost(lmsets, db) == old(ghost(lmsets, db))
+//@   ensures result == nil && ghost(curexists, db) == 1 && !ltEmpty(ghost(curlen, db), startP, stopP) ==> ghost(ldeletes, db) == old(ghost(ldeletes, db)) && ghost(lmsets, db) == old(ghost(lmsets, db)) + 1 && ghost(lmhead, db) == ghost(curhead, db) + ltS(ghost(curlen, db), startP) && ghost(lmtail, db) == ghost(curhead, db) + ltE(ghost(curlen, db), stopP)
+//@   ensures result == nil && ghost(curexists, db) == 1 ==> ghost(commits, db.rockEng) == old(ghost(commits, db.rockEng)) + 1
+//@   ensures ghost(curexists, db) == 1 && 1 <= len(key) && len(key) <= MaxKeySize && result != nil ==> ghost(commits, db.rockEng) == old(ghost(commits, db.rockEng)) + 1
+//@   modifies ghost(wbputs, _), ghost(wbdels, _), ghost(lmhead, db), ghost(lmtail, db), ghost(lmsets, db), ghost(ldeletes, db), ghost(commits, _), ghost(tblcnt, db), ghost(expdels, _)
+//@   loop 1
+//@   invariant 0 <= i && i <= start
+//@   loop 2
+//@   invariant stop + 1 <= i && i <= llen
